@@ -154,6 +154,10 @@ int glob_files(fstree_t *fs, const char *filename, size_t line_num,
 	tree_node_t *root;
 	int ret;
 
+	/* pack file in the current directory and no pack dir specified */
+	if (basepath == NULL)
+		basepath = ".";
+
 	/* fetch the actual target node */
 	root = fstree_get_node_by_path(fs, fs->root, ent->name, true, false);
 	if (root == NULL)
